@@ -504,7 +504,11 @@ pub fn run_c21(tier: Tier, seed: u64) -> i32 {
                     format!("agg:{}:{}:{}", kind, what, if pn2.starts_with("parquet") { "parquet" } else if pn2.contains("limit") { "spill" } else { "memory" })
                 };
                 let lname = if pname.starts_with("parquet") { "parquet" } else { pname.as_str() };
+                let used_before = ctx.memory_used();
                 let mut r = diff_case(&db, ctx, &dfc, &q, lname, &classify, &rebuild);
+                if std::env::var("QE_VERIF_TRACE").is_ok() && pname.contains("limit") {
+                    eprintln!("TRACE sd={} qi={} pool_used {} -> {} fail={} inconclusive={:?} :: {}", sd, qi, used_before, ctx.memory_used(), r.fail.is_some(), r.inconclusive, q.engine_sql());
+                }
                 if let Some(n) = r.nontrivial.take() {
                     r.nontrivial = Some(format!("{}|{}", n, pname));
                 }
@@ -935,4 +939,62 @@ pub fn run_c08(tier: Tier, seed: u64) -> i32 {
     });
     rep.floor(rep.distinct_count() > 100, "too few distinct non-trivial (statement, limit) pairs");
     rep.finish()
+}
+
+
+/// Debug aid (not a registered check): rebuild the database of C21 seed `SD`,
+/// put it behind a fresh 64 KiB context and run statements 0..=UPTO on it in
+/// order, printing row counts of the engine and the reference.
+pub fn c21_repro() -> i32 {
+    let sd: u64 = std::env::var("SD").ok().and_then(|s| s.parse().ok()).unwrap_or(0);
+    let upto: usize = std::env::var("UPTO").ok().and_then(|s| s.parse().ok()).unwrap_or(3);
+    let only: Option<usize> = std::env::var("ONLY").ok().and_then(|s| s.parse().ok());
+    let limit: usize = std::env::var("MEM").ok().and_then(|s| s.parse().ok()).unwrap_or(64 * 1024);
+    let mut rng = Rng::new(sd ^ 0xC21);
+    let sc = *rng.pick(&[SizeClass::Tiny, SizeClass::Small, SizeClass::Small, SizeClass::Medium]);
+    let db = gen_db(&mut rng, 2, sc);
+    println!("tables: {:?}", db.iter().map(|t| (t.name.clone(), t.rows.len())).collect::<Vec<_>>());
+    let mut c = ExecutionContext::with_memory_limit(limit);
+    for t in &db {
+        c.register_table(t.name.clone(), t.schema(), t.even_batches((t.rows.len() / 5).max(1)));
+    }
+    let ctx = Arc::new(c);
+    let dfc = df_ctx(&db);
+    if let Ok(dir) = std::env::var("DUMP") {
+        for t in &db {
+            let p = crate::data::write_parquet_table(std::path::Path::new(&dir), t, &crate::data::PqOpts { files: 1, rg_rows: 1 << 20, dictionary: false, snappy: false, stats: true });
+            println!("dumped {} rows of {} to {}", t.rows.len(), t.name, p.display());
+        }
+    }
+    if let Ok(sqls) = std::env::var("SQL") {
+        for one in sqls.split(";;") {
+            if std::env::var("PLAN").is_ok() {
+                match ctx.physical_plan(one.trim()) {
+                    Ok(p) => println!("physical plan: {:?}", p),
+                    Err(e) => println!("plan error: {}", e),
+                }
+            }
+            let e = run_sql(&ctx, one.trim());
+            let r = run_df(&dfc, one.trim());
+            println!("engine {} | reference {} rows :: {}", e.short().chars().take(70).collect::<String>(), r.map(|a| a.rows.len() as i64).unwrap_or(-1), one.trim().chars().take(170).collect::<String>());
+        }
+        return 0;
+    }
+    for qi in 0..=upto {
+        let mut qrng = rng.fork(qi as u64);
+        let mut f = Feats::all();
+        f.limit = false;
+        f.cross_join = false;
+        let mut g = G::new(&mut qrng, f);
+        let q = g.q_agg(&db, 2);
+        if let Some(o) = only {
+            if o != qi {
+                continue;
+            }
+        }
+        let e = run_sql(&ctx, &q.engine_sql());
+        let r = run_df(&dfc, &q.ref_full_sql());
+        println!("qi={} engine {} | reference {} rows | pool {} :: {}", qi, e.short().chars().take(60).collect::<String>(), r.map(|a| a.rows.len() as i64).unwrap_or(-1), ctx.memory_used(), q.engine_sql().chars().take(150).collect::<String>());
+    }
+    0
 }
